@@ -11,18 +11,21 @@ import (
 	"github.com/taurusgroup/multi-party-sig/pkg/party"
 	"github.com/taurusgroup/multi-party-sig/verifharness/adv"
 	"github.com/taurusgroup/multi-party-sig/verifharness/conv"
+	"github.com/taurusgroup/multi-party-sig/verifharness/ref"
 	"reflect"
 )
 
 // Deviations are the state-level deviations of a presigner named by C04: the cheater follows the
 // protocol (all its individual proofs are honest proofs of what it sends) except for one inconsistency.
-var Deviations = []string{"gamma-for-delta", "k-for-shares", "x-for-chi", "delta-share", "chi-share-after-mta", "sigma-share"}
+var Deviations = []string{"gamma-for-delta", "k-for-shares", "x-for-chi", "delta-share", "chi-share-after-mta", "sigma-share", "sigma-neg"}
 
 // CiphertextDeviations: ONE Paillier ciphertext of ONE direct message is replaced by a well-formed ciphertext of the
 // plaintext plus one (homomorphically, under the recipient's or the sender's key). Unlike a wire-level alteration of
 // the ciphertext bytes the result decrypts to an in-range value, so only the check that is really about the VALUE can
 // notice it (keygen: the VSS check of the received share; MtA: the affine-operation proof).
-var KeygenCiphertextDeviations = []string{"ct+1:Share:recipient"}
+// "ctneg" replaces the ciphertext by one of the NEGATED plaintext, q - x (a share -x passes any check that looks at the
+// x-coordinate of x*G only).
+var KeygenCiphertextDeviations = []string{"ct+1:Share:recipient", "ctneg:Share:recipient"}
 var MtACiphertextDeviations = []string{"ct+1:DeltaD:recipient", "ct+1:DeltaF:sender", "ct+1:ChiD:recipient", "ct+1:ChiF:sender"}
 
 // CiphertextDeviationsFor lists the ciphertext deviations that exist in a CMP protocol (presign carries its D
@@ -84,7 +87,7 @@ func deviation(name string) (*adv.Hooks, *int) {
 			}
 		}
 	}
-	if strings.HasPrefix(name, "ct+1:") {
+	if strings.HasPrefix(name, "ct+1:") || strings.HasPrefix(name, "ctneg:") {
 		parts := strings.Split(name, ":")
 		field, whose := parts[1], parts[2]
 		h.Content = func(r round.Session, msg *round.Message) {
@@ -108,8 +111,14 @@ func deviation(name string) (*adv.Hooks, *int) {
 			if pk == nil {
 				return
 			}
-			one, _ := pk.Enc(new(saferith.Int).SetUint64(1))
-			f.Set(reflect.ValueOf(ct.Clone().Add(pk, one)))
+			if parts[0] == "ctneg" {
+				// q - x: the receiver insists on a plaintext in [0, q)
+				qEnc, _ := pk.Enc(new(saferith.Int).SetBig(ref.N, 256))
+				f.Set(reflect.ValueOf(ct.Clone().Mul(pk, new(saferith.Int).SetBig(big.NewInt(-1), 8)).Add(pk, qEnc)))
+			} else {
+				one, _ := pk.Enc(new(saferith.Int).SetUint64(1))
+				f.Set(reflect.ValueOf(ct.Clone().Add(pk, one)))
+			}
 			*hits++
 		}
 		return h, hits
@@ -149,12 +158,18 @@ func deviation(name string) (*adv.Hooks, *int) {
 	case "chi-share-after-mta":
 		// the chi share is changed after the MtA and its ElGamal encryption: the later proof about S cannot be honest
 		h.After = func(r round.Session) { tweakScalar(r, "presign4", "ChiShare", +1) }
-	case "sigma-share":
-		// the final signature share is off by one
+	case "sigma-share", "sigma-neg":
+		// the final signature share is off by one / is exactly the negated share (sigma*R and -sigma*R share their
+		// x-coordinate)
 		h.Content = func(r round.Session, msg *round.Message) {
 			if isRound(r, "sign2") && msg.Broadcast {
 				if f, ok := adv.Field(msg.Content, "Sigma"); ok {
-					addScalar(f, +1)
+					if name == "sigma-neg" {
+						old := f.Interface().(curve.Scalar)
+						f.Set(reflect.ValueOf(curve.Secp256k1{}.NewScalar().Set(old).Negate()))
+					} else {
+						addScalar(f, +1)
+					}
 					*hits++
 				}
 			}
